@@ -317,6 +317,10 @@ def r_merge_flat(ck: Checker) -> None:
     elif not ok:
         raise Unsupported("concat_origins: fold with + not recognised", c.node)
     (ck.holds if ok else ck.violation)("R-MERGE-FLAT", c, c.node, what, **({} if ok else {"construct": "concat_origins: fold with + not recognised"}))
+    r_multiorigin_init(ck)
+
+
+def r_multiorigin_init(ck: Checker, rule: str = "R-MERGE-FLAT") -> None:
     # MultiOrigin.__post_init__: source / position inferred in operand order
     m = ck.repo.func(ORIGIN, "MultiOrigin.__post_init__")
     what = "MultiOrigin infers its source (common source or SourceSet) and PositionSet from the members in operand order (no sort / set)"
@@ -369,6 +373,11 @@ def r_merge_flat(ck: Checker) -> None:
         if n is not None and n < 2:
             continue  # fewer than two members accepted: not this rule's business (merge_origins never builds such)
         others = sorted(k for k in a_ if k != "len(self.origins)")
+        ident = [k for k in others if k.startswith("all((") and " is " in k and ".source" in k]
+        if ident:
+            bad.append("the common-source test compares sources by identity (equal sources held as distinct objects give a SourceSet, "
+                       "yet the deserialised origin, whose sources are canonical, gets the single source)")
+            continue
         if [k for k in others if k not in k_common]:
             raise Unsupported(f"MultiOrigin.__post_init__ decides on {others}", m.node)
         common = any(a_.get(k) for k in k_common if k in a_) if others else None
@@ -388,11 +397,11 @@ def r_merge_flat(ck: Checker) -> None:
             bad.append(f"different sources: source is {src}")
         n_ok += 1
     if bad:
-        ck.violation("R-MERGE-FLAT", m, m.node, what, construct=f"MultiOrigin.__post_init__: {bad[0]}")
+        ck.violation(rule, m, m.node, what, construct=f"MultiOrigin.__post_init__: {bad[0]}")
     elif not n_ok:
         raise Unsupported("MultiOrigin.__post_init__: no accepting path found", m.node)
     else:
-        ck.holds("R-MERGE-FLAT", m, m.node, what, evaluations=len(leaves))
+        ck.holds(rule, m, m.node, what, evaluations=len(leaves))
 
 
 def r_slice(ck: Checker) -> None:
